@@ -5,7 +5,7 @@ import numpy as np
 from hypothesis import strategies as st
 
 from .. import gen, model
-from ..core import Ctx, Violation, call, check, must_raise, per_shard, run_given
+from ..core import Ctx, Violation, call, check, must_raise, per_shard, run_given, given_part, machine_part, run_parts
 
 PID = "C18"
 LEVEL = "exploration"
@@ -241,6 +241,7 @@ def replay(ctx: Ctx, case):
 
 def run(ctx: Ctx):
     q = ctx.tier == "quick"
-    if not run_given(ctx, "manycontig", manycontig_cases(), check_manycontig, per_shard(ctx, 64 if q else 1600), batch=8):
-        return
-    run_given(ctx, "rename", cases(), check_rename, per_shard(ctx, 480 if q else 14000), batch=40)
+    parts = []
+    parts.append(given_part(ctx, "manycontig", manycontig_cases(), check_manycontig, per_shard(ctx, 64 if q else 1600), batch=8))
+    parts.append(given_part(ctx, "rename", cases(), check_rename, per_shard(ctx, 480 if q else 14000), batch=40))
+    run_parts(ctx, parts)
